@@ -4,7 +4,8 @@ The hash seed can only be chosen per interpreter, so every batch of cases is exe
 several fresh child interpreters; each child is a pure function of its spec.  Seeded
 dimensions: PYTHONHASHSEED, heap layout (junk allocations, scrambled free lists), directory
 listing order of the snippets (scandir seam), output directory location and history, position
-in the process, simulated wall clock (years apart) and environment (TZ, LANG, USER, HOME, HOSTNAME).
+in the process, simulated wall clock (years apart) and environment (TZ, LANG, USER, HOME, HOSTNAME;
+one child per plan runs under a real non-UTF-8 locale).
 """
 from __future__ import annotations
 
@@ -54,6 +55,10 @@ def _all_cases(seed: int, tier: str) -> List[dict]:
             if rng.random() < 0.33:
                 cases.append({"model": model, "target": target,
                               "snippets": rng.choice(["invalid2", "invalid3", "invalid_siblings"])})
+            # ... and some with non-ASCII text in the model (own stream: the draws above stay)
+            if random.Random(f"{seed}:C22:nonascii:{model}:{target}").random() < 0.15:
+                cases.append({"model": model, "target": target, "snippets": "min",
+                              "edits": [["namespace_twin", 6], ["tail_comment", "\u00fc\u4e2d"]]})
         rng.shuffle(cases)
         _CASES[key] = cases
     return _CASES[key]
@@ -83,7 +88,7 @@ def describe() -> dict:
             "3 (quick) / 12 (thorough) fresh interpreters that differ in PYTHONHASHSEED, heap "
             "junk, snippets listing order, output-dir location (plain/deep/space+unicode/"
             "relative/beneath the snippets dir), output-dir history (absent/empty/foreign files/same-named files that are longer, "
-            "identical, equal up to CRLF / CR / trailing blanks, or not UTF-8), position of the case in the process, simulated wall clock (time/datetime seams, epochs years apart) and environment (TZ, LANG, USER, HOME, HOSTNAME); compared: rc, stdout up to the "
+            "identical, equal up to CRLF / CR / trailing blanks, or not UTF-8), position of the case in the process, simulated wall clock (time/datetime seams, epochs years apart) and environment (TZ, LANG, USER, HOME, HOSTNAME; one child per plan really runs under LC_ALL=C without UTF-8 mode, i.e. ASCII as the default text encoding, and a share of the cases carries non-ASCII text in the model); compared: rc, stdout up to the "
             "output path, stderr, sha256 of every file the run wrote; one evaluation = one execution of a case in one interpreter. distinct = distinct "
             "cases whose results were compared across >= 2 interpreters."
         ),
@@ -126,6 +131,10 @@ def gen_plan(seed: int, run: int, tier: str) -> dict:
             "hist_seed": rng.randrange(1 << 30),
             "env_seed": rng.randrange(1 << 30),
         })
+    # the second "machine" of every plan has a non-UTF-8 locale (real: LC_ALL=C without UTF-8
+    # mode or coercion, so `open()` without an explicit encoding means ASCII there)
+    if len(children) > 1:
+        children[1]["locale"] = "C"
     return {"engine": "determinism", "seed": seed, "run": run, "cases": cases,
             "children": children}
 
@@ -230,7 +239,9 @@ def child_main(spec_path: str) -> int:
                     repo.write_tree(sdir, {rel: content})
             if loc == "in_snippets" and case["snippets"] == "big":
                 loc = "plain"  # never write into the repository's fixture directory
-            sub = {"plain": "o", "deep": "a/b/c/o", "space": "with space/ö ü/o",
+            # (a machine whose file-system encoding is ASCII cannot even create "ö ü")
+            sub = {"plain": "o", "deep": "a/b/c/o",
+                   "space": "with space/o u/o" if child.get("locale") == "C" else "with space/ö ü/o",
                    "relative": "rel/o", "in_snippets": ""}[loc]
             out_abs = sb.path("out", sub)
             if loc == "in_snippets":
@@ -323,6 +334,14 @@ def _run_child(plan: dict, i: int, workdir: str) -> Dict[str, Any]:
         json.dump({"child": child, "cases": plan["cases"]}, f)
     env = dict(os.environ)
     env["PYTHONHASHSEED"] = str(child["hashseed"])
+    for k in ("LC_CTYPE", "LANGUAGE", "PYTHONIOENCODING"):
+        env.pop(k, None)
+    if child.get("locale") == "C":
+        env.update({"LC_ALL": "C", "LANG": "C", "PYTHONUTF8": "0", "PYTHONCOERCECLOCALE": "0"})
+    else:
+        env.update({"LC_ALL": "C.UTF-8", "LANG": "C.UTF-8"})
+        env.pop("PYTHONUTF8", None)
+        env.pop("PYTHONCOERCECLOCALE", None)
     check = os.path.join(os.path.dirname(os.path.dirname(os.path.abspath(__file__))),
                          "bin", "check.py")
     proc = subprocess.run([sys.executable, check, "determinism", "--child", spec_path],
